@@ -69,7 +69,7 @@ func NewEnv(seed int, pick func(n int) int) *Env {
 	e := &Env{log: log}
 	ints := [][]int{{}, {1}, {1, 2, 3}, {3, -1, 0, 7, 7}, {5, 4, 3, 2, 1, 0}}
 	strs := [][]string{{}, {"a"}, {"a", "b", "ab"}, {"x", "", "xyz"}}
-	anys := [][]interface{}{{}, {1, "a", true}, {nil, 2.5, int64(3)}, {1, 2, 3}}
+	anys := [][]interface{}{{}, {1, "a", true}, {nil, 2.5, int64(3)}, {1, 2, 3}, {1.5, 2}}
 	scal := []int{0, 1, -1, 2, 3, 7, 10, -5, 100}
 	e.I = scal[pick(len(scal))]
 	e.J = scal[pick(len(scal))]
